@@ -91,7 +91,16 @@ def evaluate(name):
             return
         where = subprocess.run([PY, "-c", "import streamz,os;print(os.path.dirname(streamz.__file__))"], capture_output=True, text=True, env=env, cwd=d).stdout.strip()
         mut = subprocess.run([PY, os.path.join(d, "demo.py")], capture_output=True, text=True, env=env, timeout=600, cwd=d)
-        suite = sh("flock /tmp/streamz_suite.lock %s -m pytest -q -p no:cacheprovider --timeout=900 2>&1 | grep -E '^[0-9]+ passed|failed|error' | tail -1" % PY, cwd=repo).stdout.strip()
+        def run_suite():
+            out = sh("flock /tmp/streamz_suite.lock %s -m pytest -q -p no:cacheprovider --timeout=900 2>&1 | grep -E '^[0-9]+ passed|^FAILED|failed|error' | tail -4" % PY, cwd=repo).stdout.strip()
+            lines = out.splitlines()
+            return (lines[-1] if lines else ""), [l for l in lines if l.startswith("FAILED")]
+        suite, failed_tests = run_suite()
+        first_attempt = None
+        if not suite.startswith(BASELINE):
+            # wall-clock tests of the suite are flaky on a loaded machine: one more attempt, both recorded
+            first_attempt = dict(summary=suite, failed=failed_tests)
+            suite, failed_tests = run_suite()
         results = {}
         for c in checks:
             e2 = dict(os.environ, VERIF_REPO=repo, VERIF_EVIDENCE_DIR=os.path.join(d, "ev"), VERIF_REPLAY_DIR=os.path.join(d, "rp"))
@@ -116,6 +125,8 @@ def evaluate(name):
                 demo_with_change_tail=(mut.stdout + mut.stderr)[-400:],
                 streamz_imported_from=where.replace(d, "<scratch>"),
                 unedited_suite_with_change=suite,
+                suite_failed_tests=failed_tests,
+                suite_first_attempt=first_attempt,
                 suite_matches_baseline=suite.startswith(BASELINE),
                 checks=results),
             valid=(clean.returncode == 0 and mut.returncode != 0 and suite.startswith(BASELINE)),
